@@ -111,6 +111,14 @@ claim(
 )
 
 claim(
+    "C07",
+    "Static: decides two structural necessary conditions of mirror symmetry for half models: the two components that detect the hand of a symmetric half (VortexMesh, EvalVelMtx) use complementary strict comparisons of |y| at the first and last spanwise node of the same mesh in set-up, evaluation and linearisation; and the geometry design variables do not contradict that: the sweep / dihedral displacement of a half is invariant under the mirror map (decided on the extracted expression), and taper / twist do not hard-wire the last spanwise node as the root without testing the hand. Does not decide the reflection equivariance of forces, displacements or stresses, nor the wingbox end-node stress recovery.",
+    TB,
+    "AST canonicalisation of the orientation predicates; source-level expression extraction (sympy) with a mirror substitution; contradiction rule over enumerated root idioms",
+    "DESIGN.md section 2 C07",
+)
+
+claim(
     "C05",
     "Static: decides the structural clauses of the vortex-lattice method for every option valuation: the finite filaments EvalVelMtx adds for each (image) surface form a closed directed ring over the four panel corners with one strength, the last row sheds the reversed rear segment into two semi-infinite legs of opposite sign along (cos alpha, 0, sin alpha) so that no filament ends in the fluid; collocation points, force points, bound vectors and vortex-ring rows are the 3/4- and 1/4-chord stencils of the mesh corners with the trailing edge kept; the panel force is rho Gamma (v x l); the tangency system is -(v.n) and (AIC.n). Does not decide kernel values, the solve, the tangency residual or agreement with an independent solver.",
     TB + " The Biot-Savart kernels are uninterpreted functions of the corner arrays they are applied to.",
